@@ -46,6 +46,38 @@ def run(chk):
     res = pair.impl(lines)
     prop_fail, tie_breaks = [], []
     runs = 0
+    # process history: the same workloads as the FIRST instances of fresh processes, alone and after an
+    # instance of every other struct (including a struct with the same column paths and repetition types
+    # but other physical types), in both orders: a workload's output must not depend on who came first
+    zs2 = filelevel.load_zoos(pair, ["threetwin"])
+    hist_lines, hist_meta = [], []
+    members = [(n, zs[n]) for n in workloads.ZOOS if zs.get(n) is not None] + [(n, z) for n, z in zs2.items() if z is not None]
+    gh = zoolib.Gen(rng, mode="mixed")
+    solo = {}
+    for n, z in members:
+        for codec in ((0, 1, 2) if thorough else (0,)):
+            go_ops, _ = z.ops_text([("a", gh.record(z.nodes)) for _ in range(3)] + [("w",), ("c",)])
+            solo[(n, codec)] = "%s,%d,%d,%s" % (n, 2, codec, go_ops)
+    keys = sorted(solo)
+    for k in keys:
+        hist_lines.append("c13 1 1 " + solo[k]); hist_meta.append([k])
+    for a in keys:
+        for b in keys:
+            if a != b and (thorough or "three" in (a[0], b[0]) or "threetwin" in (a[0], b[0])):
+                hist_lines.append("c13 1 1 %s#%s" % (solo[a], solo[b])); hist_meta.append([a, b])
+    hres = common.chunked_parallel(pair.impl, hist_lines, workers=16, chunk=1)       # chunk=1: a fresh process per line
+    seen = {}
+    for l, meta, r in zip(hist_lines, hist_meta, hres):
+        if not r.startswith("ok "):
+            prop_fail.append({"case": l[:3000], "key": {"what": " ".join(r.split(" ")[:2])}, "clause": "outputs differ: " + r, "got": r, "want": "byte-identical files and read results"})
+            continue
+        runs += int(r.split(" ")[1])
+        for k, h in zip(meta, r.split(" ")[2].split(",")):
+            if k in seen and seen[k][0] != h:
+                prop_fail.append({"case": "%s\nvs\n%s" % (l[:1500], seen[k][1][:1500]), "key": {"what": "process-history", "workload": list(k)},
+                                  "clause": "the output of workload %s,%s depends on which instances ran earlier in the process" % k,
+                                  "got": h, "want": seen[k][0]})
+            seen.setdefault(k, (h, l))
     for l, r in zip(lines, res):
         if r.startswith("ok "):
             runs += int(r.split(" ")[1])
@@ -70,7 +102,7 @@ def run(chk):
         "checker_cmd": "cd lean && lake build %s" % MODULE, "trusted_base": TRUSTED_BASE, "forbidden_constructs": pr["forbidden_constructs"],
         "evaluations": runs + race_runs, "distinct_nontrivial": len(lines) * 15, "instance_runs": runs, "race_detector_runs": race_runs, "race_reports": race_reports,
         "race_build": bool(race),
-        "rule": "batches of 15 mixed workloads (5 structs x 3 codecs, random page sizes and records) in one process: each workload's file bytes and read-back are compared with its own baseline (i) when repeated after the others ran, (ii) after the runtime's and every generated package's buffer pools were filled with 0xAA/0xFF/0x00 garbage buffers, (iii) while 16 goroutines run the workloads concurrently; the same under the Go race detector; non-trivial = distinct workload per batch",
+        "rule": "batches of 15 mixed workloads (5 structs x 3 codecs, random page sizes and records) in one process: each workload's file bytes and read-back are compared with its own baseline (i) when repeated after the others ran, (ii) after the runtime's and every generated package's buffer pools were filled with 0xAA/0xFF/0x00 garbage buffers, (iii) while 16 goroutines run the workloads concurrently; (iv) as first instances of fresh processes, alone and after an instance of another struct (incl. a twin struct with the same column paths and repetition types but other physical types), in both orders; the same under the Go race detector; non-trivial = distinct workload per batch",
         "samples": [lines[0][:300]],
         "tie": "byte equality of outputs across repeat / poisoned-pool / concurrent runs; inventories (Get/defer-Put pairing, package-level variables) regenerated from the source",
         "tie_disagreements": len(tie_breaks), "property_failures_on_impl": len(prop_fail),
